@@ -7,6 +7,7 @@
 #undef protected
 #include "synth.hpp"
 #include <unordered_set>
+#include <set>
 
 using namespace nifly;
 
@@ -21,7 +22,19 @@ struct Gen : std::streambuf, verif::Observer {
 	bool pendingRef = false, pendingStr = false;
 	uint32_t nTargets = 3, nStrings = 3;
 	int boostAt = -1; // ordinal of the scalar field to boost (value boosting), -1 = none
+	long long boostVal = -1;
+	std::vector<std::pair<int, long long>> overrides;
 	int scalarOrd = 0;
+	std::vector<uint32_t> codes; // (kind, size, is-reference, is-string) of every transfer the reader asked for
+	std::vector<int> scalarKinds;
+	// layout signature: the set of adjacent pairs of transfers (a longer array repeats pairs, a new section adds some)
+	uint64_t signature() const {
+		std::set<uint64_t> pairs;
+		for (size_t i = 0; i + 1 < codes.size(); i++) pairs.insert(uint64_t(codes[i]) * 100003ull + codes[i + 1]);
+		uint64_t h = 1469598103934665603ull;
+		for (auto p : pairs) h = (h ^ p) * 1099511628211ull;
+		return h ^ (codes.empty() ? 0 : codes[0]);
+	}
 	std::unordered_set<const void*> live;
 
 	Gen(uint64_t seed, int m) : rng(seed), mode(m) {}
@@ -59,6 +72,7 @@ struct Gen : std::streambuf, verif::Observer {
 		pendingRef = false;
 		uint64_t v = 0;
 		bool scalar = true;
+		codes.push_back(uint32_t((k + 2) * 64 + (n == 1 ? 1 : n == 2 ? 2 : n == 4 ? 3 : n == 8 ? 4 : 5) * 4 + (isRef ? 1 : 0) + (isStr ? 2 : 0)));
 		if (isStr && n == 4) {
 			pendingStr = false;
 			// string-table index (>= 20.1.0.3) or inline length (older): both small; NPOS for "no string" sometimes
@@ -90,7 +104,12 @@ struct Gen : std::streambuf, verif::Observer {
 			v = n == 1 ? (mode == 1 ? 1 : rng() % 2) : small(3);
 		}
 		if (scalar) {
-			if (boostAt >= 0 && scalarOrd == boostAt && !isRef && !isStr && k != verif::FK_FLOAT && k != verif::FK_HALF) v = (n == 1) ? 200 : 300;
+			if (boostAt >= 0 && scalarOrd == boostAt && !isRef && !isStr && k != verif::FK_FLOAT && k != verif::FK_HALF)
+				v = boostVal >= 0 ? uint64_t(boostVal) : ((n == 1) ? 200 : 300);
+			if (k != verif::FK_FLOAT && k != verif::FK_HALF)
+				for (auto& ov : overrides)
+					if (ov.first == scalarOrd) v = ov.second < 0 ? 0xFFFFFFFFull : uint64_t(ov.second);
+			scalarKinds.push_back(isRef ? -2 : (isStr ? -3 : k));
 			scalarOrd++;
 			memset(s, 0, size_t(n));
 			memcpy(s, &v, size_t(std::min<std::streamsize>(n, 8)));
@@ -133,7 +152,17 @@ NiVersion synthVersion(const std::string& name) {
 	return NiVersion::getSSE();
 }
 
-bool synthFile(NifFile& nif, const std::string& type, const std::string& ver, int mode, uint64_t seed, int boostAt, SynthInfo* info) {
+static bool synthCore(NifFile& nif, const std::string& type, const std::string& ver, int mode, uint64_t seed, int boostAt, SynthInfo* info, long long boostVal,
+					  const std::vector<std::pair<int, long long>>& overrides);
+bool synthFile(NifFile& nif, const std::string& type, const std::string& ver, int mode, uint64_t seed, int boostAt, SynthInfo* info, long long boostVal) {
+	return synthCore(nif, type, ver, mode, seed, boostAt, info, boostVal, {});
+}
+bool synthFileOv(NifFile& nif, const std::string& type, const std::string& ver, int mode, uint64_t seed, const std::vector<std::pair<int, long long>>& overrides,
+				 SynthInfo* info) {
+	return synthCore(nif, type, ver, mode, seed, -1, info, -1, overrides);
+}
+static bool synthCore(NifFile& nif, const std::string& type, const std::string& ver, int mode, uint64_t seed, int boostAt, SynthInfo* info, long long boostVal,
+					  const std::vector<std::pair<int, long long>>& overrides) {
 	nif.Create(synthVersion(ver));
 	auto& hdr = nif.GetHeader();
 	// reference targets: root + two more nodes; three header strings
@@ -150,6 +179,8 @@ bool synthFile(NifFile& nif, const std::string& type, const std::string& ver, in
 	if (!fac) return false;
 	Gen gen(seed * 1000003ull + std::hash<std::string>{}(type + ver) % 100000 + mode, mode);
 	gen.boostAt = boostAt;
+	gen.boostVal = boostVal;
+	gen.overrides = overrides;
 	gen.inlineStrings = hdr.GetVersion().File() < V20_1_0_3;
 	gen.nStrings = 3;
 	std::istream is(&gen);
@@ -171,6 +202,8 @@ bool synthFile(NifFile& nif, const std::string& type, const std::string& ver, in
 		info->scalars = gen.scalarOrd;
 		info->readRefs = gen.readRefs;
 		info->readStrs = gen.readStrs;
+		info->tape = gen.signature();
+		info->scalarKinds = gen.scalarKinds;
 	}
 	if (gen.exhausted || !obj) return false;
 	uint32_t id = hdr.AddBlock(std::move(obj));
